@@ -8,3 +8,7 @@ pub mod selftest;
 pub mod tape;
 pub mod typed;
 pub mod apache;
+pub mod alloc;
+
+#[global_allocator]
+static GLOBAL: alloc::Counting = alloc::Counting;
